@@ -27,10 +27,16 @@ EXTRA = [M.Unrelated(), b"ab", M.Point(1, 2), M.NT(1, "x"), (1, "a"), b"x", b"a"
 
 
 def _um(T):
+    """The public entry point `unmarshal(T, .)` (the routine is built here so that a build failure is reported as such)."""
     from typelib import unmarshals
 
     with NoTracing():
-        return unmarshals.unmarshaller(T)
+        unmarshals.unmarshaller(T)
+
+    def call(x):
+        return unmarshals.unmarshal(T, x)
+
+    return call
 
 
 def _mm(T):
